@@ -1,7 +1,7 @@
 """C19 — bit strings expose exactly the encoded bits"""
 from common import *
 
-THEOREMS = ['fromContent_exhausted_run', 'fromContent_ok_iff', 'fromContent_accepts', 'fromContent_rejects', 'fromContent_cons', 'skipContent_eq_fromContent', 'skipContent_ok_iff', 'accepted_invariant', 'bitLen_eq', 'bit_eq_spec', 'bit_lt', 'bit_ge', 'bit_two_part', 'bits_list', 'roundtrip', 'decode_enc_content', 'accepted_bits', 'encLen_eq']
+THEOREMS = ['fromContent_exhausted_run', 'fromContent_ok_iff', 'fromContent_accepts', 'fromContent_rejects', 'fromContent_cons', 'skipContent_eq_fromContent', 'skipContent_ok_iff', 'accepted_invariant', 'bitLen_eq', 'bit_eq_spec', 'bit_lt', 'bit_ge', 'bit_two_part', 'bits_list', 'roundtrip', 'decode_enc_content', 'accepted_bits', 'encLen_eq', 'views_eq', 'accepted_views', 'new_ok_iff']
 RULE = ("run <mode> T bits / T bitsskip / tv X bits on BIT STRING encodings: all contents of length 0-2 (primitive), constructed forms, "
         "sizes around the CER bound (999..1002 content octets), wrong tags; bits.bit for every accepted shape: all unused counts x data of "
         "0-3 octets (boundary octets) and random longer data, every index 0..bit_len+16; non-zero unused bits included. "
@@ -59,4 +59,4 @@ def nontrivial(req, ans):
 
 LEVEL = "proof"
 LEVEL_TEXT = ("Lean 4 theorems for ALL contents, all modes, any trailing octets: BitString::from_content followed by the exhaustion check succeeds exactly when the content is non-empty, the unused count is <= 7 and zero if no data octets follow, and (CER) the content has <= 1000 octets - otherwise a content error, never a panic (fromContent_ok_iff, fromContent_rejects); constructed content is rejected; skip_content accepts exactly the same contents and leaves the same source (skipContent_eq_fromContent); for every accepted value bit_len = 8*octets - unused (bitLen_eq) and for EVERY index i (unbounded; the u8 cast of the bit offset included) bit(i) is the i-th bit MSB-first below the bit length and false beyond (bit_eq_spec, bit_lt, bit_ge, bits_list); the data octets are returned unchanged and re-encoding reproduces the content (decode_enc_content, roundtrip, encLen_eq). Correspondence: bit strings of every unused count x lengths around the octet/1000 boundaries, bit queries below/at/beyond the length incl. offsets >= 256.")
-LEVEL_NOTE = ("Trusted: Lean 4.33 kernel; axioms propext, Classical.choice, Quot.sound only; the hand-written model (lean/Bcder/Model/BitString.lean) tied to /repo on every run by differential correspondence. The octet views (octets/octet_slice/octet_bytes/octet_len) are not separate model functions: the theorems show the decoded value holds exactly the data octets; the views themselves are compared by the correspondence check. Constructed BIT STRINGs are rejected by the crate by design.")
+LEVEL_NOTE = ("Trusted: Lean 4.33 kernel; axioms propext, Classical.choice, Quot.sound only; the hand-written model (lean/Bcder/Model/BitString.lean) tied to /repo on every run by differential correspondence. The octet views (octets/octet_slice/octet_bytes/octet_len/unused) are model functions (views_eq, accepted_views: they return the data octets of the accepted value unchanged); BitString::new's assertion is modelled (new_ok_iff). Constructed BIT STRINGs are rejected by the crate by design.")
